@@ -322,12 +322,12 @@ PROPS["C08"] = dict(
                "least as new; readPage is proved to be the slice [cursor, cursor+batch) of the feed, the sink's duplicate detection and CompleteFullSync are part of the model); this holds over every "
                "history of source writes and runs from the empty hub (pipe_token_safe), and any run that ends ok leaves the sink's latest version of every source id equal to the source's "
                "(pipe_converges: convergence and recovery). The same statements on the abstract feed/cursor/token model Hub.Sync (token_never_ahead, converges_at_end, next_run_restores, "
-               "rerun_changes_nothing) cover arbitrary interleavings of writes with pages; without the token reset a failed full sync diverges (full_sync_abort_without    level_note="Trusted: Lean kernel, factgen, badger. Hub.Pipe is compared with the real pipelines, sources and sink on generated scripts with faults; union/latest-only jobs are covered by that "
-               "correspondence and by the abstract Hub.Sync theorems only.",
-ces and latest-only reads are in the executable model and the correspondence but not in the Hub.Pipe theorems; a "
+               "rerun_changes_nothing) cover arbitrary interleavings of writes with pages; without the token reset a failed full sync diverges (full_sync_abort_without_reset_diverges, defect D28, "
+               "fixed). The order sink-call / error-check / token-store, the reset after startFullSync, the single endFullSync after the read loop and the union source's Update-before-callback and "
+               "return-on-error are regenerated facts (facts_*). PARTIAL: union sources and latest-only reads are in the executable model and the correspondence but not in the Hub.Pipe theorems; a "
                "full sync over a multi-version history is not a no-op for the sink's feed (known finding D29).",
-    level_note="Trusted: Lean kernel, factgen, badger. The theorems are about the abstract feed/cursor/token model (Hub.Sync); its refinement by the detailed model Hub.Pipe (latest-only reads, "
-               "union tokens, duplicate detection, CompleteFullSync) is validated by the correspondence, not proved.",
+    level_note="Trusted: Lean kernel, factgen, badger. Hub.Pipe is compared with the real pipelines, sources and sink on generated scripts with faults; union/latest-only jobs are covered by that "
+               "correspondence and by the abstract Hub.Sync theorems only.",
 )
 
 PROPS["C04"] = dict(
